@@ -131,7 +131,7 @@ impl TraitHandler for DerefEnumHandler {
                 type Target = #target_token_stream;
 
                 #[inline]
-                fn deref(&self) -> &Self::Target {
+                fn deref(&self) -> &<Self as ::core::ops::Deref>::Target {
                     match self {
                         #arms_token_stream
                     }
